@@ -266,7 +266,7 @@ def run(ctx):
                 break
 
     # V: quick validates a sample of the traces, thorough all of them
-    limit_lines = 6000 if not thorough else 80000
+    limit_lines = 4000 if not thorough else 50000
     keep, n = set(), 0
     order = list(range(ngen))
     rng.shuffle(order)
